@@ -1,8 +1,11 @@
 (* C14 - Path localisation inserts the game's language marker and nothing else.
    Model: Model/Localize.v (tied to src/localization.rs by `./check C14`, exhaustively over
-   the 6 x 8 localizer/language table). *)
+   the 6 x 8 localizer/language table) and, for the last sentence of the property ("all filesystem
+   operations apply the same mapping"), Model/LayeredFS.v (tied to src/layered_filesystem.rs by the
+   localized-access histories of `./check C14`, shared with C12/C13). *)
 From Coq Require Import List NArith Bool.
-From Mila Require Import Model.Localize Proofs.LocalizeProofs.
+From Mila Require Import Lib.Bytes Lib.Machine Model.Localize Proofs.LocalizeProofs Model.LayeredFS
+  Proofs.LayeredFSBase Proofs.LayeredFSStack Proofs.LayeredFSList Proofs.LayeredFSWf Proofs.LayeredFSLocal.
 Import ListNotations.
 Local Open Scope N_scope.
 
@@ -99,3 +102,50 @@ Example C14_example :
   /\ localize GFE13 EnglishNA [32;47;120] = LOk [32;47;69;47;120]
   /\ plainP [109] /\ plainP [32].
 Proof. vm_compute. repeat split; try congruence; intros [H|[]]; discriminate. Qed.
+
+(* ---------------------------------------------------------------- C14 (file-system half) *)
+(* all filesystem operations apply the same mapping: a localized call addresses localize p.  read and write
+   pick the codec by the name the CALLER passed (as the code does), which for a path dir/name is the same
+   choice as for localize p ([C14_fs_same_codec]). *)
+Theorem C14_fs_consistent : forall S p p',
+  localize (c_loc (conf S)) (lng S) p = LOk p' ->
+  fs_addr S p true = fs_addr S p' false /\
+  fs_exists S p true = fs_exists S p' false /\
+  fs_file_exists S p true = fs_file_exists S p' false /\
+  fs_directory_exists S p true = fs_directory_exists S p' false /\
+  fs_resolve S p true = fs_resolve S p' false /\
+  (forall pat, fs_list S p pat true = fs_list S p' pat false) /\
+  fs_subdirectories S p true = fs_subdirectories S p' false /\
+  fs_create_dir S p true = fs_create_dir S p' false /\
+  (forall compress decompress,
+     is_compressed (c_comp (conf S)) p = is_compressed (c_comp (conf S)) p' ->
+     fs_read decompress S p true = fs_read decompress S p' false /\
+     (forall b, fs_write compress S p b true = fs_write compress S p' b false)).
+Proof.
+  intros S p p' H. split; [exact (loc_addr S p p' H)|].
+  destruct (loc_queries S p p' H) as (A & B & C & D & E & F & G). repeat (split; [assumption|]).
+  intros c d. exact (loc_read_write S p p' H c d).
+Qed.
+Theorem C14_fs_same_codec : forall g l c dir name p',
+  g <> GNoOp -> dir <> [] -> Forall plainP (dir ++ [name]) ->
+  localize g l (render (dir ++ [name]) false) = LOk p' ->
+  is_compressed c p' = is_compressed c (render (dir ++ [name]) false).
+Proof. exact loc_same_codec. Qed.
+(* a localisation error is reported by every operation (resolve: None) and changes nothing *)
+Theorem C14_fs_localisation_error : forall S p e compress decompress b pat,
+  localize (c_loc (conf S)) (lng S) p = LErr e ->
+  fs_read decompress S p true = FErr (ELocalization e) /\
+  fs_write compress S p b true = (S, FErr (ELocalization e)) /\
+  fs_create_dir S p true = (S, FErr (ELocalization e)) /\
+  fs_exists S p true = FErr (ELocalization e) /\
+  fs_list S p pat true = FErr (ELocalization e) /\
+  fs_resolve S p true = FOk None.
+Proof.
+  intros S p e c d b pat H.
+  unfold fs_read, fs_write, fs_create_dir, fs_exists, fs_list, fs_resolve, fs_addr, fs_actual. rewrite H. repeat split.
+Qed.
+
+(* non-vacuity of the file-system half: the example file system of Properties/C13.v *)
+Definition ex14_fs : fsys := mkFs [[([[100]], Dir); ([[100]; [97]], File [1])]] (mkConfig LZ13 GFE13 LE Unicode) EnglishNA.
+Example C14_fs_example : localize (c_loc (conf ex14_fs)) (lng ex14_fs) [100; 47; 97] = LOk [100; 47; 69; 47; 97].
+Proof. vm_compute. reflexivity. Qed.
